@@ -72,6 +72,36 @@ HARNESSES += [
 ]
 
 
+def ll(name, props, what, **kw):
+    d = {"name": name, "props": props, "src": "h_lowlevel.c", "contracts": ["public.h"],
+         "enforce": name, "defs": {"LL_" + name: None, "VERIF_MAX_BUF": "(1ul<<40)"}, "what": what}
+    d.update(kw)
+    return d
+
+
+HARNESSES += [
+    ll("handle_destroy", ["C05", "C14"], "handle_destroy: closes exactly the given library-owned descriptor, once; -1 is a no-op"),
+    ll("pipe_destroy", ["C05", "C14"], "pipe_destroy: as handle_destroy"),
+    ll("handle_cloexec", ["C11", "C04"], "handle_cloexec sets/clears FD_CLOEXEC on exactly that descriptor, reports -errno"),
+    ll("pipe_nonblocking", ["C17", "C04"], "pipe_nonblocking sets/clears O_NONBLOCK on exactly that descriptor"),
+    ll("pipe_init", ["C05", "C11", "C17", "C10", "C04", "C14"],
+       "pipe_init under every subset of failing OS calls: two fresh close-on-exec blocking ends, or nothing left behind"),
+    ll("pipe_read", ["C02", "C17", "C05", "C14"], "pipe_read: one read as asked, result is the kernel's, EOF is EPIPE"),
+    ll("pipe_write", ["C02", "C17", "C05", "C14"], "pipe_write: one write as asked, result is the kernel's"),
+]
+
+
+HARNESSES += [
+    {"name": "redirect_init", "props": ["C10", "C05", "C17", "C11", "C04", "C13", "C14"], "src": "h_redirect.c",
+     "contracts": ["public.h"], "enforce": "redirect_init", "defs": {"RD_init": None},
+     "what": "redirect_init for every redirect type, stream, nonblocking flag and fileno answer, with every OS call "
+             "fallible; redirect_pipe/parent/discard/file/path, pipe_init, pipe_nonblocking inlined"},
+    {"name": "redirect_destroy", "props": ["C05", "C14"], "src": "h_redirect.c",
+     "contracts": ["public.h"], "enforce": "redirect_destroy", "defs": {"RD_destroy": None},
+     "what": "redirect_destroy closes exactly what the library opened (PIPE/DISCARD/PATH), never a user handle, FILE or parent stream"},
+]
+
+
 def api(name, props, what, **kw):
     d = {"name": "reproc_" + name, "props": props, "src": "h_api.c", "contracts": ["public.h"],
          "includes": ["reproc.c"], "enforce": "reproc_" + name, "defs": {"API_" + name: None, "VERIF_MAX_BUF": "(1ul<<40)"},
